@@ -214,6 +214,29 @@ def run(c):
                                                                                            coq_list(rq)) for p, ws, a, sk, rq in steps]), ro["status"]))
             item_src.append((text, tr, ro["status"]))
             c.cov["tracer_log_events"] = c.cov.get("tracer_log_events", 0) + len(tr)
+    # ---- a later run whose main process gets the number of an earlier run's descendant (private pid namespace, small pid_max)
+    pr = scratch + "/pidreuse"
+    os.makedirs(pr + "/d")
+    open(pr + "/a", "w").write("task 0 -\nfork 1 -\ns 900001 a\npause 50 -\nexit 0 -\ntask 1 -\npause 30000 -\n")
+    open(pr + "/b", "w").write("task 0 -\ns 900002 a\ns 900003 b\nfork 1 -\nwait 0 -\ntask 1 -\ns 900004 b\n")
+    po = c.run_harness("/usr/bin/unshare", [{"id": 0, "mode": "pidreuse", "dir": pr + "/d", "script_a": pr + "/a", "script_b": pr + "/b",
+                                             "out_a": pr + "/oa", "out_b": pr + "/ob"}], args=("--pid", "--fork", "--mount-proc", exe), timeout=300)[0]
+    if "harness_err" in po:
+        raise RuntimeError(po["harness_err"])
+    c.cov["pid_reuse_exercised"] = bool(po.get("reused"))
+    if po.get("reused"):
+        c.count("pidreuse", nontrivial=True, klass="run:pid-reuse")
+        steps = parse_trace(po["log_b"])
+        first = steps[0] if steps else None
+        if po["status_b"] != 1 or "r 900003 -1 13" not in po["out_b"]:
+            c.finding_or_violation({"kind": "enforce", "what": "a run whose main process got the number of an earlier run's descendant does not run as it does otherwise",
+                                    "status": po["status_b"]}, {"tracer_log": po["log_b"], "program_record": po["out_b"], "reused_pid": po["reused"]}, klass="pid-reuse-run")
+        if not first or "LSet" not in first[4]:
+            c.finding_or_violation({"kind": "enforce", "what": "the main process of a run is not given the ptrace options when its number was used by a descendant of an earlier run"},
+                                   {"tracer_log": po["log_b"], "reused_pid": po["reused"]}, klass="pid-reuse")
+        items.append("(%d%%Z, %s, %d%%N)" % (po["reused"], coq_list(["(%d%%Z, %d%%N, %s, %s, %s)" % (p, ws, "None" if a is None else "Some %d%%nat" % a, "true" if sk else "false",
+                                                                                               coq_list(rq)) for p, ws, a, sk, rq in steps]), po["status_b"]))
+        item_src.append(("run B of the pid-reuse scenario", po["log_b"], po["status_b"]))
     c.sample({"script": meta[0][0].splitlines(), "record": obs[0]["runs"][0]["out"].splitlines(), "markers": obs[0]["runs"][0]["markers"],
               "status": obs[0]["runs"][0]["status"], "tracer_log": (item_src[0][1] if item_src else [])[:30]})
     dis = []
